@@ -146,4 +146,52 @@ theorem cacheOk_empty (h : Heap) : CacheOk kern ⟨h, TW.empty⟩ := by
   intro key w hl
   simp [TW.empty] at hl
 
+/-! ### which entry a query uses -/
+
+/-- a query re-uses an existing registration exactly when the SAME array object was registered before -/
+theorem register_hit_iff (s : TW) (id : Nat) :
+    (s.register id).1 < s.eFermis.length ↔ id ∈ s.eFermis := by
+  unfold TW.register
+  cases hf : s.eFermis.findIdx? (· == id) with
+  | some i =>
+    simp only
+    rw [List.findIdx?_eq_some_iff_getElem] at hf
+    obtain ⟨hi, hp, -⟩ := hf
+    have : s.eFermis[i] = id := by simpa using hp
+    exact ⟨fun _ => this ▸ List.getElem_mem hi, fun _ => hi⟩
+  | none =>
+    simp only
+    rw [List.findIdx?_eq_none_iff] at hf
+    constructor
+    · intro h; omega
+    · intro h
+      have := hf id h
+      simp at this
+
+/-- … and then it is the registration of that very object -/
+theorem register_hit_same (s : TW) (id : Nat) : (s.register id).2.eFermis[(s.register id).1]? = some id :=
+  (register_spec s id).1
+
+/-! ### a lookup by "same length, same first and last value" (NOT what the code does) -/
+
+def sameEnds (a b : List Rat) : Bool :=
+  a.length == b.length && a.head? == b.head? && a.getLast? == b.getLast?
+
+/-- registration that also accepts a stored array with equal size and end points -/
+def TW.registerEnds (h : Heap) (s : TW) (id : Nat) : Nat × TW :=
+  match s.eFermis.findIdx? (fun j => j == id || sameEnds (heapGet h j) (heapGet h id)) with
+  | some i => (i, s)
+  | none => (s.eFermis.length, { s with eFermis := s.eFermis ++ [id] })
+
+def stepEnds (σ : Sys) : Op → Sys × Option (List Rat)
+  | .query id der ik ib =>
+    let r := σ.tw.registerEnds σ.heap id
+    let q := r.2.weight1b kern σ.heap r.1 der ik ib
+    ({ σ with tw := q.2 }, some q.1)
+  | .mutate id vals => ({ σ with heap := (id, vals) :: σ.heap }, none)
+
+def runEnds : Sys → List Op → List (Option (List Rat))
+  | _, [] => []
+  | σ, op :: rest => (stepEnds kern σ op).2 :: runEnds (stepEnds kern σ op).1 rest
+
 end WB.C14
